@@ -29,13 +29,22 @@ def helper_shapes(ctx):
     trivia, paren = "(" f ")", ..).  Check each helper's body against that meaning."""
     g = ctx.grammar
     r = RuleResult('G0', 'token / bracket helper bodies agree with the model used by the grammar rules')
-    sh = lambda f: grammar.show(f.ir) if f and f.ir else None
+    def consume_only(ir):
+        """what the helper consumes, in order: conversions (`map`) and private sub-helpers (`inline`) are transparent"""
+        if isinstance(ir, list):
+            return [consume_only(x) for x in ir]
+        if not isinstance(ir, dict):
+            return ir
+        if ir.get('op') in ('map', 'inline'):
+            return consume_only(ir['p'])
+        return {k: (consume_only(v) if k in ('p', 'q', 'arms', 'parts', 'item', 'sep', 'a', 'b') else v) for k, v in ir.items()}
+    sh = lambda f: grammar.show(consume_only(f.ir)) if f and f.ir else None
     want = {
         'ws': ['body($f, many0(white_space))'],
         'no_ws': ['body($f)'],
         'triple': ['body($f, $g, $h)'],
-        'symbol': ['body(map(ws(map(tag("$t"), ..)), ..))'],
-        'symbol_exact': ['body(map(no_ws(map(tag("$t"), ..)), ..))'],
+        'symbol': ['body(ws(tag("$t")))'],
+        'symbol_exact': ['body(no_ws(tag("$t")))'],
         'paren': ['body(symbol("("), $f, symbol(")"))'],
         'paren_exact': ['body(symbol("("), $f, symbol_exact(")"))'],
         'bracket': ['body(symbol("["), $f, symbol("]"))'],
@@ -54,7 +63,7 @@ def helper_shapes(ctx):
     # keyword: consuming literal t, trivia kept (boundary checked by G7c)
     kw = g.fns.get('keyword')
     r.inst('shape:keyword', {'helper': 'keyword', 'ir': sh(kw)})
-    if kw is None or not sh(kw).startswith('body(map(ws(alt(') or '$t' not in sh(kw):
+    if kw is None or not sh(kw).startswith('body(ws(alt(') or '$t' not in sh(kw):
         r.fail('%s:helper-shape:keyword' % g.crate, '-', 'helper `keyword` is %s; expected map(ws(alt(<tag(t) forms>)))' % sh(kw))
     else:
         for node in grammar.iter_ir(kw.ir):
